@@ -52,6 +52,11 @@ func c10(r *Report) propMeta {
 	r.ArgHas("consumed-prefix-removed", hes, "types.NewSigningExpirations", 0, 1, "^slice", "call:Keeper.GetSigningExpirations", "phi")
 	r.Count("list-saved-once", hes, []Effect{CallEff("Keeper.SetSigningExpirations")}, "all", 1, 1)
 
+	// an attempt's deadline is fixed when the attempt is created: the attempt record has one writer and the deadline field
+	// is set by the constructor only (seed C10-11: deactivating a member "released" its open attempts by moving their
+	// deadline to the current block, which timed out - and penalised - members that were still in time)
+	r.Callers("attempt-record-writers", tK+"SetSigningAttempt", []string{tK + "InitiateNewSigningRound"}, []string{tK + "InitiateNewSigningRound"})
+	r.FieldWriters("attempt-deadline-writers", "SigningAttempt.ExpiredHeight", nil, []string{"x/tss/types.NewSigningAttempt"}, []string{"x/tss"})
 	r.Rule("C10.R3", "E3+E5 outcome handling")
 	r.Gate("failed-only-if-retry-failed", heb, CallEff("Keeper.HandleFailedSigning"), []Cond{{Op: "EQL", A: []string{"call:Keeper.InitiateNewSigningRound"}, B: []string{"const:nil"}, Want: false, Desc: "InitiateNewSigningRound(cacheCtx) != nil"}}, GateOpts{})
 	r.NotAfter("aggregate-before-expiry", heb, CallEff("Keeper.AggregatePartialSignatures"), CallEff("Keeper.HandleExpiredSignings"))
